@@ -69,9 +69,10 @@ def ofTable (tab : List (P × Option P)) : FS := fun p =>
   | some e => some e.2
   | none => none
 
-/-- `utils.ResolveSymbolicLink(path)` on strings; `none` = error.  (An absolute path that is not clean is handled through
-its components here; the real function finds the clean prefix by `strings.Replace` and leaves such a path alone — the
-loader only passes clean absolute paths or paths as written, see design/C12.md.) -/
+/-- `utils.ResolveSymbolicLink(path)` on strings; `none` = error.  (An absolute path that is not clean — only a watch path
+written absolute with `.`, `..`, `//` — is handled through its cleaned components here; the real function replaces a link
+only when its clean spelling is a leading component of the path as written and otherwise leaves the path alone.  Those
+inputs are outside the correspondence streams and checked by an oracle only, see design/C12.md "Not proved".) -/
 def resolveStr (fs : FS) (s : Str) : Option Str :=
   if isAbs s then
     match resolveSym fs (comps s) with
